@@ -69,7 +69,11 @@ def recipes():
                    "log_level": (["-X"], data_in(KEY32), "set_log_level")}
     r["wif"] = {"input_format": ([], data_in(KEY32), "read_bytes.input_format"), "network": ([], data_in(KEY32), "wif_encode.network"),
                 "log_level": ([], data_in(KEY32), "set_log_level")}
-    r["addr"] = {"input_format": ([], data_in(b"\x11" * 20), "read_bytes.input_format"), "network": ([], data_in(b"\x11" * 20), "to_bitcoin_address.network"),
+    def _segwit_out(net):
+        from ..ref import bech32 as rb_
+        return rb_.encode_segwit(rb_.NET_HRP[net], 0, b"\x11" * 20)
+    # (4th element: what the command must PRINT for the value in effect - the option is only "in effect" if the result shows it)
+    r["addr"] = {"input_format": ([], data_in(b"\x11" * 20), "read_bytes.input_format"), "network": (["--wv", "0"], data_in(b"\x11" * 20), "to_bitcoin_address.network", _segwit_out),
                  "log_level": ([], data_in(b"\x11" * 20), "set_log_level")}
     r["mnemonic"] = {"input_format": (["--from-entropy"], data_in(b"\x00" * 16), "read_bytes.input_format"),
                      "output_format": (["--to-entropy"], lambda f: MNEMONIC.encode(), "write_bytes.output_format"),
@@ -132,7 +136,7 @@ def gen_cases(tier, seed):
 
 def required(tier):
     return {"conv.pairs_roundtrip": 50000, "conv.class.empty": 9, "conv.padding": 40, "conv.main_runs": 150, "prec.configs": 2000,
-            "prec.pairs_observed": 50, "prec.class.flag_over_file": 400, "prec.class.empty_flag_over_file": 40, "prec.class.toml_over_json": 150, "prec.class.file_over_default": 300,
+            "prec.pairs_observed": 50, "prec.outputs_judged": 20, "prec.class.flag_over_file": 400, "prec.class.empty_flag_over_file": 40, "prec.class.toml_over_json": 150, "prec.class.file_over_default": 300,
             "prec.class.redeclared_-0_subcommands": 30, "unknown.configs": 10, "parser.subcommands": 15}
 
 
@@ -259,13 +263,13 @@ def write_configs(d, json_state, toml_state, extra_unknown=False):
     if json_state is not None:
         js = dict(json_state)
         if extra_unknown:
-            js.update({"no_such_option": "x", "subcommand": "evil", "in_file": "/nonexistent"})
+            js.update({"no_such_option": "x", "subcommand": "evil", "in_file": "/nonexistent", "update": "daily", "load_config": "x", "__init__": "x", "__class__": "x", "__dict__": "x", "config_dir": "/nonexistent"})
         with open(os.path.join(d, "config.json"), "w") as f:
             json.dump(js, f)
     if toml_state is not None:
         ts = dict(toml_state)
         if extra_unknown:
-            ts.update({"no_such_option": "x", "subcommand": "evil"})
+            ts.update({"no_such_option": "x", "subcommand": "evil", "update": True, "load_config": 1, "__init__": "x", "__doc__": "x", "__eq__": "x"})
         with open(os.path.join(d, "config.toml"), "w") as f:
             for k, v in ts.items():
                 f.write(f'{k} = {json.dumps(v)}\n')
@@ -423,7 +427,8 @@ def _precedence(ctx, params, kind):
             if opt in table.get(sub, ()):
                 ctx.note_set("accepted_but_no_use_site", f"{sub}:{opt}")
             continue
-        extra, stdin_maker, site = rec_all[sub][opt]
+        extra, stdin_maker, site = rec_all[sub][opt][:3]
+        out_oracle = rec_all[sub][opt][3] if len(rec_all[sub][opt]) > 3 else None
         has_flag = opt in table.get(sub, ())
         vals = VALUES[opt]
         rot = params.get("rot", 0)
@@ -467,6 +472,11 @@ def _precedence(ctx, params, kind):
                         if not seen:
                             ctx.violation(f"precedence/use-site-not-reached/{subn}/{opt}", f"argv {argv[2:]}: {site} never called (ret={r['ret']!r}, exit={r['exit']!r}, err={r['err'][-200:]!r})")
                             continue
+                        if out_oracle is not None and seen[0] == want and kind == "precedence":
+                            ctx.count("prec.outputs_judged")
+                            if r["out"].strip() != out_oracle(exp):
+                                ctx.violation(f"precedence/result-not-for-value-in-effect/{subn}/{opt}/{exp}", f"bits {' '.join(argv[2:])} with {cfgcls}: value in effect {exp!r} reaches {site}, "
+                                              f"but the command printed {r['out'][:70]!r}, expected {out_oracle(exp)!r}")
                         if seen[0] != want:
                             wrong_layer = _which_layer(seen[0], opt, flag_val, js, ts)
                             key = f"precedence/wrong-value/{subn}/{opt}/expected-{layer}-got-{wrong_layer}" if kind == "precedence" else f"unknown-keys/changed-value/{subn}/{opt}"
